@@ -101,3 +101,41 @@ func HarnessFraming(n int) {
 	vh.Assert("C14/frame-allocations-bounded", vh.AllocatedBytes() <= int64(MaxBlockHeaderPayload*MaxBlockHeadersPerMsg)+(1<<20))
 	vh.Reach("end")
 }
+
+// HarnessCommandField (C14): the 12 command bytes of a frame are arbitrary (our magic, empty
+// payload, the right checksum of the empty payload). The frame is accepted only if those bytes
+// are exactly a known command name followed by NUL padding - in particular not a known name,
+// a NUL, and anything else after it.
+func HarnessCommandField() {
+	command := vh.Bytes("command", CommandSize)
+	for _, b := range command {
+		vh.Assume(b < 0x80) // ASCII: the real code's UTF-8 validity test stays on its fast path (stated bound)
+	}
+	for _, c := range []string{CmdGetCFilters, CmdGetCFHeaders, CmdGetCFCheckpt, CmdCFilter, CmdCFHeaders, CmdCFCheckpt} {
+		// the compact-filter decoders go through reflection (outside the model, as in HarnessDecode)
+		var excl [CommandSize]byte
+		copy(excl[:], c)
+		vh.Assume(!bytes.Equal(command, excl[:]))
+	}
+	f := vh.Sha256(nil)
+	sum := vh.Sha256(f[:])
+	var frame bytes.Buffer
+	var cmd [CommandSize]byte
+	copy(cmd[:], command)
+	_ = writeElements(&frame, uint32(MainNet), cmd, uint32(0), [4]byte{sum[0], sum[1], sum[2], sum[3]})
+	_, msg, _, err := ReadMessageWithEncodingN(bytes.NewReader(frame.Bytes()), ProtocolVersion, MainNet, BaseEncoding)
+	vh.Observe("accepted", err == nil)
+	if err == nil {
+		known := false
+		for _, c := range harnessCommands {
+			var want [CommandSize]byte
+			copy(want[:], c)
+			known = vh.Or(known, bytes.Equal(command, want[:]))
+		}
+		vh.Assert("C14/accepted-command-field-is-a-known-name-with-nul-padding", known)
+		vh.Assert("C14/accepted-frame-has-known-command", msg != nil)
+		vh.Reach("accepted")
+		return
+	}
+	vh.Reach("rejected")
+}
